@@ -433,33 +433,17 @@ def rule_scope(ctx: Ctx):
         rep.check(ok, "C02.scope", ise.loc(), "is_same_event compares the whole event with the triggering `event`",
                   ise.key, f"return {show(v)}")
     # executors filter on callback.condition
+    from ..shapes import executor_collect
+
     for name in ("call", "async_call"):
         ex = ctx.fn(f"CallbacksExecutor.{name}")
-        ok = False
-        detail = ""
-        for p in ctx.paths(ex):
-            for e in p.of("comp"):
-                comp = e.term
-                tgt = comp.generators[0].target
-                tname = tgt.id if isinstance(tgt, ast.Name) else None
-                conds = [c for g in comp.generators for c in g.ifs]
-                filt = any(isinstance(c, ast.Call) and isinstance(c.func, ast.Attribute) and c.func.attr == "condition"
-                           and isinstance(c.func.value, ast.Name) and c.func.value.id == tname for c in conds)
-                elt = comp.elt if hasattr(comp, "elt") else None
-                runs = isinstance(elt, ast.Call) and tname in {n.id for n in ast.walk(elt.func) if isinstance(n, ast.Name)}
-                if runs:
-                    ok = filt
-                    detail = show(comp)
-            # explicit loop form: a branch on <cb>.condition(...) dominating the call
-            if not detail:
-                for e in p.calls():
-                    f = e.term.func
-                    if isinstance(f, ast.Attribute) and f.attr in ("call", "__call__"):
-                        detail = show(e.term)
-                        ok = any(b.kind == "branch" and b.x["taken"] and "condition" in xshow(b.term, p.events)
-                                 for b in p.events[: e.idx])
-        rep.check(ok, "C02.scope", ex.loc(), f"CallbacksExecutor.{name} runs only callbacks whose condition holds",
-                  ex.key, detail or "no callback invocation found")
+        shapes = executor_collect(ctx, ex)
+        if not shapes:
+            rep.unrecognised("C02.scope", ex.loc(), f"CallbacksExecutor.{name}: callback invocation shape not recognised")
+        for c in shapes:
+            ok = ("ELEM.condition(*args, **kwargs)", True) in c.filters and all(pol for _, pol in c.filters)
+            rep.check(ok, "C02.scope", ex.loc(), f"CallbacksExecutor.{name} runs only callbacks whose condition holds", ex.key,
+                      f"{c.form}: value={c.value} filters={c.filters}")
     # executor.add takes the condition from spec.cond
     add = ctx.fn("CallbacksExecutor.add")
     found = False
@@ -525,9 +509,12 @@ def rule_initial(ctx: Ctx):
                   "the pseudo-transition's own callback specs are emptied before it is used (only the target's enter group can run)",
                   it.key, "no `_specs.clear()` on the returned transition")
     st = ctx.fn("BaseEngine.start")
-    for n in own_nodes(st.node):
-        if isinstance(n, ast.Call) and show(n.func) == "BoundEvent" and n.args and isinstance(n.args[0], ast.Constant):
-            literals["start"] = n.args[0].value
+    for p in ctx.paths(st, inline=None, exc_edges="none"):
+        for e in p.calls():
+            if show(e.term.func) == "BoundEvent":
+                a0 = e.term.args[0] if e.term.args else next((kw.value for kw in e.term.keywords if kw.arg in ("id", "transitions")), None)
+                if isinstance(a0, ast.Constant):
+                    literals["start"] = a0.value
     for eng in k.engines:
         tr = k.engine_fn(eng, "_trigger")
         trg = trigger_param(tr)
